@@ -23,6 +23,31 @@ pub enum Spec {
     Bulk { docs: Vec<LinkSpec>, seed: u8 },
     /// two JSON values for the canonical encoder
     Pair { a: J, b: J },
+    /// two layouts that differ only in their expiry (whole seconds)
+    Expiry { layout: LayoutSpec, key: KeySpec, a: i64, b: i64 },
+}
+
+/// expiry instants biased to calendar boundaries (new year, month ends, leap days, midnight)
+fn expiry_pair() -> BoxedStrategy<(i64, i64)> {
+    let year_start = |y: i64| -> i64 {
+        // days from civil (Howard Hinnant), 1 January of year y
+        let y2 = y - 1;
+        let era = y2.div_euclid(400);
+        let yoe = y2.rem_euclid(400);
+        let doy = 306; // 1 Jan counted from 1 March of the previous year
+        let doe = yoe * 365 + yoe / 4 - yoe / 100 + doy;
+        (era * 146097 + doe - 719468) * 86400
+    };
+    let base = prop_oneof![
+        3 => (1971i64..2200, -5i64..6, 0i64..86400).prop_map(move |(y, d, s)| year_start(y) + d * 86400 + s),
+        2 => (0i64..253_402_300_799 - 400 * 86400),
+        1 => (1971i64..2200).prop_map(move |y| year_start(y)),
+    ];
+    let delta = prop_oneof![
+        Just(1i64), Just(59), Just(60), Just(3600), Just(86400), Just(7 * 86400), Just(365 * 86400), Just(366 * 86400), Just(364 * 86400), Just(371 * 86400),
+        Just(30 * 86400), Just(31 * 86400), Just(12 * 3600), Just(100 * 365 * 86400 + 24 * 86400), 1i64..100_000,
+    ];
+    (base, delta, any::<bool>()).prop_map(|(a, d, neg)| if neg && a - d >= 0 { (a, a - d) } else { (a, a + d) }).boxed()
 }
 
 const TINY: &[&str] = &["", "n", "\\", "\n", "\\n", "\"", "a", "\\\\", "\\\"", "a\"", "\",\"", "\t", "\\t", "[", "]", "a\",\"b"];
@@ -117,6 +142,7 @@ impl Property for C05 {
             1 => (proptest::collection::vec(tiny_link(), 24), 0u8..12).prop_map(|(docs, seed)| Spec::Bulk { docs, seed }),
             2 => near_pair().prop_map(|(a, b)| Spec::Pair { a, b }),
             1 => (json_value(false), json_value(false)).prop_map(|(a, b)| Spec::Pair { a, b }),
+            3 => (layout_spec(false, true), ed_key(), expiry_pair()).prop_map(|(layout, key, (a, b))| Spec::Expiry { layout, key, a, b }),
         ]
         .boxed()
     }
@@ -175,6 +201,42 @@ impl Property for C05 {
                             o.fail(format!("C05/equal-signed-bytes/{}", class),
                                 format!("M1 and M2 ({}) have equal Ed25519 signatures, i.e. equal signed bytes; M2 = {}", what, tree2),
                                 "different signed bytes");
+                        }
+                    }
+                }
+            }
+            Spec::Expiry { layout, key, a, b } => {
+                o.class("expiry-pair");
+                let mut la = layout.clone();
+                la.expires = *a;
+                let mut lb = layout.clone();
+                lb.expires = *b;
+                let ma = MetadataWrapper::Layout(la.to_lib());
+                let mb = MetadataWrapper::Layout(lb.to_lib());
+                if ma == mb {
+                    return o;
+                }
+                o.nontrivial(format!("E|{}|{}|{}", a, b, layout.steps.len()));
+                let sk = private(key);
+                let pk = sk.public().clone();
+                let (Ok(ba), Ok(bb)) = (Metablock::new(ma, &[&*sk]), Metablock::new(mb.clone(), &[&*sk])) else {
+                    o.fail("C05/sign/error", "signing failed", "signed block");
+                    return o;
+                };
+                // transplant: signatures of A over content B
+                let stale = Metablock { signatures: ba.signatures.clone(), metadata: mb };
+                if stale.verify(1, [&pk]).is_ok() {
+                    o.fail("C05/stale-signature-accepted/edit:expiry", format!("signature over expiry {} ({}) verifies over expiry {} ({})", a, rfc3339_z(*a), b, rfc3339_z(*b)), "Err");
+                }
+                if ba.signatures[0].value().as_bytes() == bb.signatures[0].value().as_bytes() {
+                    o.fail("C05/equal-signed-bytes/edit:expiry", format!("layouts expiring {} and {} have equal signed bytes", rfc3339_z(*a), rfc3339_z(*b)), "different signed bytes");
+                }
+                // and through the wire: edit the text of A's file
+                if let Ok(text) = serde_json::to_string(&ba) {
+                    let edited = text.replacen(&rfc3339_z(*a), &rfc3339_z(*b), 1);
+                    if let Ok(parsed) = serde_json::from_str::<Metablock>(&edited) {
+                        if parsed.metadata != ba.metadata && parsed.verify(1, [&pk]).is_ok() {
+                            o.fail("C05/stale-signature-accepted/edit:expiry-text", format!("expires edited from {} to {} in the signed file and the signature still verifies", rfc3339_z(*a), rfc3339_z(*b)), "Err");
                         }
                     }
                 }
